@@ -313,12 +313,15 @@ def splice(prelude_src, master_src, ext_src, deferred, quarantined=()):
                     e_a_end = rtok._skip_attrs(ext.toks, et.lo, et.hi)
                     body = ext.src[ext.toks[e_a_end].start:ext.toks[et.hi - 1].end]
                     edits.append((master.toks[it.lo].start, master.toks[it.hi - 1].end, attrs + body))
+    new_types = []
     for name, it in etypes.items():
         if name not in report["types"]:
-            report["errors"].append("type %s of /repo is missing from the contracts" % name)
+            # a type that is new in /repo: carried over as written (no contract mentions it)
+            report["types"][name] = "new"
+            new_types.append(ext.src[ext.toks[it.lo].start:ext.toks[it.hi - 1].end])
     # functions of /repo that have no contract (new in the working tree): emitted unverified and without
     # a specification (`external_body`); what their callers can still prove is decided downstream
-    tail = []
+    tail = list(new_types)
     for top in ext.items:
         members = top.children if top.kind == "impl" else [top]
         ck = container_key(top.header_key) if top.kind == "impl" else ""
